@@ -223,6 +223,13 @@ def _modify_corpus():
                     "copies": [{"file": 0, "node": "n1", "has": "X", "wants": "Y", "disk": disk}],
                     "reqs": [{"file": 0, "from": "n1", "to": "g2", "state": "pending"}], "rules": [], "unregistered": [], "ireqs": []}
             out.append((spec, [("iter", "h1"), ("iter", "h2"), ("iter", "h1"), ("iter", "h2")]))
+    # a file still being written under the lock protocol (.NAME.lock beside it) is left alone until the writer is done
+    for name in ("data.h5", "run.7.raw", "plain"):
+        spec = {"groups": [{"name": "g1"}], "nodes": [{"name": "n1", "group": "g1", "stype": "A", "host": "h1", "active": True, "username": "u", "address": "addr"}],
+                "acqs": ["acq1"], "files": [], "copies": [], "reqs": [], "rules": [],
+                "unregistered": [{"node": "n1", "path": f"acq1/{name}", "tag": 860, "size": 9}, {"node": "n1", "path": f"acq1/.{name}.lock", "tag": 861, "size": 0}],
+                "ireqs": [{"node": "n1", "path": f"acq1/{name}", "recurse": False, "register": True}]}
+        out.append((spec, [("iter", "h1"), ("fault", "finish-write", "n1", f"acq1/{name}"), ("cli", "file import", [f"acq1/{name}", "n1", "--register-new"]), ("iter", "h1"), ("iter", "h1")]))
     # an import request for a path whose copy is already known --- corrupt, suspect, released or not --- must not make it healthy unchecked
     for has, wants in (("X", "M"), ("X", "N"), ("X", "Y"), ("M", "N"), ("N", "N")):
         for disk in ("truncated", "corrupt"):
